@@ -194,7 +194,11 @@ def run_miri(verdict, prop, gen, seed, per_shard, shards=16, param=3):
     hdir, _ = harness_dir()
     wd = os.path.join(scratch_root(), "miri-%s-%s" % (prop, gen))
     os.makedirs(wd, exist_ok=True)
-    env = clean_env({"MIRIFLAGS": "-Zmiri-disable-isolation"})
+    # -Zmiri-disable-alignment-check: the pinned dependency seahash 3.0.7 (the hasher of every map in the tool) reads integers
+    # through unaligned pointers (helper.rs read_int) - undefined behaviour by the language rules, harmless on the supported
+    # targets, in third-party code and outside every property's statement; with the check on, Miri stops there and never gets to
+    # the rest of the case (DESIGN.md section 11)
+    env = clean_env({"MIRIFLAGS": "-Zmiri-disable-isolation -Zmiri-disable-alignment-check"})
     base = ["cargo", "+nightly", "miri", "run", "--offline", "--target-dir", os.path.join(BUILD, "miri"), "--"]
 
     def cmd(shard, count, out):
